@@ -285,6 +285,7 @@ type threadInfo struct {
 	inputs    map[ssa.Value]bool
 	phisIn    map[*ssa.BasicBlock][]*ssa.Phi
 	definedIn map[*ssa.BasicBlock][]ssa.Value
+	threaded  bool // the function has merged conditions (phis) or a value that is tested more than once
 	once      sync.Once
 	trav      map[edge][][]Atom // per If edge: one atom list per feasible (block, path-state) traversal
 	capped    bool
@@ -304,6 +305,40 @@ func threadInfoOf(fn *ssa.Function) *threadInfo {
 	}
 	ti := &threadInfo{phisIn: map[*ssa.BasicBlock][]*ssa.Phi{}, definedIn: map[*ssa.BasicBlock][]ssa.Value{}}
 	ti.phis, ti.inputs = condPhis(fn)
+	ti.threaded = len(ti.phis) > 0
+	// a value tested by more than one branch (`stopped := g.stopped; if !stopped {…}; …; if stopped { return }`):
+	// the second test is decided by the first on every path, so facts about it are worth recording
+	tested := map[ssa.Value]int{}
+	for _, b := range fn.Blocks {
+		if len(b.Instrs) == 0 {
+			continue
+		}
+		iff, ok := b.Instrs[len(b.Instrs)-1].(*ssa.If)
+		if !ok {
+			continue
+		}
+		rc := (threadEnv{}).resolve(iff.Cond)
+		switch {
+		case rc.val != nil:
+			if _, isConst := rc.val.(*ssa.Const); !isConst {
+				tested[rc.val]++
+			}
+		case rc.op == token.EQL || rc.op == token.NEQ:
+			if _, isConst := rc.y.(*ssa.Const); isConst {
+				tested[rc.x]++
+			} else if _, isConst := rc.x.(*ssa.Const); isConst {
+				tested[rc.y]++
+			}
+		}
+	}
+	for v, n := range tested {
+		if n > 1 {
+			if _, isPhi := v.(*ssa.Phi); !isPhi {
+				ti.inputs[v] = true
+				ti.threaded = true
+			}
+		}
+	}
 	for p := range ti.phis {
 		ti.phisIn[p.Block()] = append(ti.phisIn[p.Block()], p)
 	}
@@ -452,7 +487,7 @@ func satisfiesAny(g guardSpec, cands []Atom) (Atom, bool) {
 // the path), in addition to those guardEdges finds on the written condition.
 func threadedGuardEdges(fn *ssa.Function, g guardSpec, edges map[edge]bool, descr *[]string) {
 	ti := threadInfoOf(fn)
-	if len(ti.phis) == 0 || len(g.atoms) == 0 {
+	if !ti.threaded || len(g.atoms) == 0 {
 		return
 	}
 	trav, capped := ti.traversals(fn)
@@ -487,7 +522,7 @@ func threadedGuardEdges(fn *ssa.Function, g guardSpec, edges map[edge]bool, desc
 // nGuardEdges counts the (block, successor) pairs on which the guard was found established at least once.
 func reachThreaded(fn *ssa.Function, g guardSpec) (limit map[*ssa.BasicBlock]int, nGuardEdges int, descr []string) {
 	ti := threadInfoOf(fn)
-	if len(ti.phis) == 0 {
+	if !ti.threaded {
 		removed, d := guardEdges(fn, g)
 		return reachUnguarded(fn, removed, g.afters), len(removed), d
 	}
@@ -518,7 +553,7 @@ func reachThreaded(fn *ssa.Function, g guardSpec) (limit map[*ssa.BasicBlock]int
 // reachUnguardedThreaded: reachUnguarded with infeasible-path pruning; nil when not applicable.
 func reachUnguardedThreaded(fn *ssa.Function, removed map[edge]bool, afters []string) map[*ssa.BasicBlock]int {
 	ti := threadInfoOf(fn)
-	if len(ti.phis) == 0 {
+	if !ti.threaded {
 		return nil
 	}
 	return reachUnguardedBarrier(fn, removed, aftersBarrier(afters))
@@ -535,7 +570,7 @@ func aftersBarrier(afters []string) func(b *ssa.BasicBlock) int {
 // instruction of a block, or -1); nil when the function has no merged conditions or the state bound was hit.
 func reachUnguardedBarrier(fn *ssa.Function, removed map[edge]bool, barrier func(b *ssa.BasicBlock) int) map[*ssa.BasicBlock]int {
 	ti := threadInfoOf(fn)
-	if len(ti.phis) == 0 {
+	if !ti.threaded {
 		return nil
 	}
 	limit, capped := ti.explore(fn, barrier, func(e edge, _ []Atom) bool { return removed[e] }, nil)
@@ -548,7 +583,7 @@ func reachUnguardedBarrier(fn *ssa.Function, removed map[edge]bool, barrier func
 // threadedGuardEdgesCanon is threadedGuardEdges for rule tables that rewrite atom operands before matching.
 func threadedGuardEdgesCanon(fn *ssa.Function, g guardSpec, canon func(string) string, edges map[edge]bool, descr *[]string) {
 	ti := threadInfoOf(fn)
-	if len(ti.phis) == 0 || len(g.atoms) == 0 {
+	if !ti.threaded || len(g.atoms) == 0 {
 		return
 	}
 	trav, capped := ti.traversals(fn)
@@ -586,7 +621,7 @@ func threadedGuardEdgesCanon(fn *ssa.Function, g guardSpec, canon func(string) s
 // extra = edges already known to establish the guard. nil when not applicable (no merged conditions / bound hit).
 func reachGuardedCanon(fn *ssa.Function, g guardSpec, canon func(string) string, extra map[edge]bool, barrier func(b *ssa.BasicBlock) int) map[*ssa.BasicBlock]int {
 	ti := threadInfoOf(fn)
-	if len(ti.phis) == 0 {
+	if !ti.threaded {
 		return nil
 	}
 	limit, capped := ti.explore(fn, barrier, func(e edge, cands []Atom) bool {
